@@ -9,6 +9,7 @@ import PgGen.C05Sig
 import PgProofs.C05Codec
 import PgProofs.C05Store
 import PgProofs.C05Keys
+import PgProofs.C05Str
 namespace Pg.C05
 
 /-! ## T-SIG: value specs can be rebuilt from what `to_json` emits -/
@@ -103,6 +104,40 @@ theorem C05_reserved_int_key_prefix {Text : Type} (dumps : JS → Text) (loads :
   rfl
 
 theorem intKeyPrefix_eq : intKeyPrefix = ['n', '_', ':'] := by decide
+
+/-- ROUND TRIP, string form, for every tree: over any JSON text layer that is a bijection
+(`loads (dumps j) = some j`; Python's `json` is trusted to be one), a conforming value none of
+whose shapes is reserved — now including str keys / attribute names starting with `n_:` — comes
+back from `from_json_str (to_json_str v)` as the same tree. Int keys of any size and sign, at any
+depth, go through `f'n_:{k}'` / `int(k[3:])`; the dict comprehensions merge nothing. -/
+theorem C05_roundtrip_str {Text : Type} (dumps : JS → Text) (loads : Text → Option JS)
+    (hjson : ∀ j, loads (dumps j) = some j)
+    (env : ClassEnv) (hwf : env.WF = true) (ap : Bool) (t : Tree)
+    (hc : Conforms env t = true) (he : Encodable true t = true)
+    (hm : ap = true ∨ NoMissing t = true) :
+    fromJsonStr loads env ap (toJsonStr dumps env t) = .ok t := by
+  unfold fromJsonStr toJsonStr
+  rw [hjson]
+  simp only [dec_enc (toJson env t) (jok_tree env hwf t hc he)]
+  exact C05_roundtrip env hwf ap t hc (enc_mono t he) hm
+
+/-- The string-form statement with only the object-form exclusions … -/
+def C05_roundtrip_str_Full : Prop :=
+  ∀ (env : ClassEnv) (ap : Bool) (t : Tree), env.WF = true → Conforms env t = true →
+    Encodable false t = true → (ap = true ∨ NoMissing t = true) →
+    fromJsonStr (Text := JS) some env ap (toJsonStr id env t) = .ok t
+
+/-- … is false (F11c): `{'n_:5': 1}` is object-form encodable but loads as `{5: 1}`. -/
+theorem C05_roundtrip_str_counterexample : ¬ C05_roundtrip_str_Full := by
+  intro h
+  have := h noClasses false (.dict [(.s "n_:5".toList, .leaf (.int 1))]) rfl rfl rfl (.inr rfl)
+  have h2 : fromJsonStr (Text := JS) some noClasses false
+      (toJsonStr id noClasses (.dict [(.s "n_:5".toList, .leaf (.int 1))])) =
+      .ok (.dict [(.i 5, .leaf (.int 1))]) := rfl
+  rw [h2] at this
+  injection this with this
+  injection this with this
+  simp at this
 
 /-- KEY CODING of the string form, for every key: an int key (any size, any sign) and every str
 key that does not start with `n_:` survive `f'n_:{k}'` followed by `_get_key` (`int(k[3:])`);
